@@ -1,8 +1,14 @@
-(* C11 - All replicas of a board agree with the table manager (in-process part).
+(* C11 - All replicas of a board agree with the table manager.
    Only statements, each closed by [exact]; proofs are in the files imported below. *)
+From BE Require Import Model.Session Model.Conform Proofs.Kahn Proofs.Session Proofs.Wire Proofs.SessionPassOut Proofs.SessionConform Proofs.SessionAdmission Proofs.SessionArrivals.
 From BE Require Import Model.Play Spec.PlayLaws Gen.PlayFns Proofs.Play Proofs.PlayGen Proofs.PlayGenCor Gen.Skeleton Proofs.SkeletonPin.
 Local Open Scope nat_scope.
-
+(* (a) in process: the observer simulation theorem.  (b) over the wire: the model client keeps an ObservedPlayingPhase replica per board
+   and stops (Fail) as soon as that replica refuses a card it is told about or it cannot parse what it receives; the
+   theorem C11_clients_complete_every_session says that in every session whose seated clients conform, under every schedule,
+   all four seated clients RETURN - so no replica ever refused an action the table manager accepted and the bundled client
+   completes every session the server completes; that the replicas hold the board as played is evaluated per session on the
+   real clients (replicas_ok of Spec/SessionSpec.v). *)
 (* a single-seat observer fed the accepted plays accepts every one and holds the same public state *)
 Theorem C11_observer_agrees :
   forall k deal s0 me o0 ops, init_hands k deal = Some s0 -> disjoint_deal deal ->
@@ -40,6 +46,19 @@ Theorem C11_generated_set_dummy_hand :
   forall s h, g_set_dummy_hand s h = set_dummy_hand s h.
 Proof. exact g_set_dummy_hand_eq. Qed.
 Print Assumptions C11_generated_set_dummy_hand.
+
+(* network part: every seated client returns, under every schedule, for every request list that fills the table *)
+Theorem C11_clients_complete_every_session :
+  forall x : session,
+  let reqs := s_arrivals x in
+  let T := seat_requests reqs empty_table in
+  s_boards x <> [] -> s_interrupt x = None -> wf_requests reqs -> all_seated T = true ->
+  conforming (s_boards x) (seated_scripts x) = true ->
+  exists f N, sfinal f /\ arrivals_outcome x f /\
+    forall l' s', srun l' (init_state x) = Some s' ->
+      length l' <= N /\ (sfinal s' -> s' = f /\ length l' = N).
+Proof. exact conforming_session_any_arrivals_every_schedule. Qed.
+Print Assumptions C11_clients_complete_every_session.
 
 (* network part: the structure of the bundled client (what it receives, sends and applies to its replica, in which order), re-extracted from client.py on this run, is the one the client processes of Model/Session.v mirror *)
 Theorem C11_client_skeleton_is_the_modelled_one :
